@@ -437,9 +437,13 @@ theorem getLast?_snoc_regular (a : List Char) (b : Name) (hb : Regular b) :
   have hne : b ≠ [] := hb.1
   have : (a ++ '/' :: b).getLast? = b.getLast? := by
     rw [List.getLast?_append]
-    cases hg : b.getLast? with
-    | none => exact absurd (List.getLast?_eq_none_iff.mp hg) hne
-    | some v => simp
+    cases b with
+    | nil => exact absurd rfl hne
+    | cons x xs =>
+      rw [List.getLast?_cons_cons]
+      cases hg : (x :: xs).getLast? with
+      | none => exact absurd (List.getLast?_eq_none_iff.mp hg) (by simp)
+      | some v => simp
   rw [this] at h0
   exact regular_noSlash hb '/' (List.mem_of_getLast? h0) rfl
 
@@ -515,6 +519,26 @@ theorem mkdirs_mono (cs : List Name) : ∀ (fs : Fs) (base : Path), ∀ e ∈ fs
     · split
       · exact he
       · exact ih _ _ e (by simp [he])
+
+/-- `makedirs` only adds directories -/
+theorem mkdirs_new (cs : List Name) : ∀ (fs : Fs) (base : Path) (e : Entry),
+    e ∈ (mkdirs fs base cs).1 → e ∈ fs ∨ e.isDir = true := by
+  induction cs with
+  | nil => intro fs base e he; left; simpa [mkdirs] using he
+  | cons c cs ih =>
+    intro fs base e he
+    simp only [mkdirs] at he
+    split at he
+    · split at he
+      · exact ih _ _ e he
+      · exact Or.inl he
+    · split at he
+      · exact Or.inl he
+      · rcases ih _ _ e he with h | h
+        · rcases List.mem_cons.mp h with rfl | h
+          · exact Or.inr rfl
+          · exact Or.inl h
+        · exact Or.inr h
 
 theorem claim_mono (fs : Fs) (d : Path) (n : Name) (fault : Fault) : ∀ e ∈ fs, e ∈ (claim fs d n fault).1 := by
   intro e he
